@@ -391,6 +391,9 @@ assert direct_compressed([None], 12, 10.0, -3) == (4095, 0, [])
 assert direct_compressed([2.5, None], 12, 10.0, 3) == (22, 2, [0, 3])
 assert direct_compressed([None, 2.5, 2.5], 12, 10.0, 3) == (22, 2, [3, 0, 0])
 assert direct_compressed([2.5, 2.6], 12, 10.0, 3) == (22, 2, [0, 1])
+# values that agree after scaling: one field, width 0 - unless an entry is missing
+assert direct_compressed([2.51, 2.52, 2.49], 12, 10.0, 3) == (22, 0, [])
+assert direct_compressed([2.51, None, 2.49], 12, 10.0, 3) == (22, 2, [0, 3, 0])
 assert direct_compressed([2.7, 2.5, None], 12, 10.0, 3) == (22, 3, [2, 0, 7])
 assert direct_compressed([0, 6, 3], 12, 1.0, 0) == (0, 4, [0, 6, 3])
 assert direct_compressed([0, 7, 3], 12, 1.0, 0) == (0, 4, [0, 7, 3])
@@ -432,14 +435,21 @@ def uncompressed_state(values):
     return state
 
 
-# width above 64 bits: no missing value is known for it, but only a missing entry asks for it
-expect_raises('missing in 65 bits', IndexError, Encoder().process_numeric_uncompressed,
-              uncompressed_state([None]), get_bit_writer(), D, 65, 1.0, 0)
+# width above 64 bits (206YYY, 204YYY): missing values are known up to 255 bits
 w = get_bit_writer()
-Encoder().process_numeric_uncompressed(uncompressed_state([5]), w, D, 65, 1.0, 0)
-assert w.get_pos() == 65 and w.bit_stream.uint == 5
-expect_raises('all missing in 65 bits', IndexError, Encoder().process_numeric_compressed,
-              CoderState(True, 2, [[None], [None]]), get_bit_writer(), D, 65, 1.0, 0)
+Encoder().process_numeric_uncompressed(uncompressed_state([None]), w, D, 65, 1.0, 0)
+assert w.get_pos() == 65 and w.bit_stream.uint == 2 ** 65 - 1
+w = get_bit_writer()
+Encoder().process_numeric_compressed(CoderState(True, 2, [[None], [None]]), w, D, 65, 1.0, 0)
+assert w.get_pos() == 71 and w.bit_stream.bin == '1' * 65 + '000000'
+# width above 255 bits: no missing value is known for it, but only a missing entry asks for it
+expect_raises('missing in 256 bits', IndexError, Encoder().process_numeric_uncompressed,
+              uncompressed_state([None]), get_bit_writer(), D, 256, 1.0, 0)
+w = get_bit_writer()
+Encoder().process_numeric_uncompressed(uncompressed_state([5]), w, D, 256, 1.0, 0)
+assert w.get_pos() == 256 and w.bit_stream.uint == 5
+expect_raises('all missing in 256 bits', IndexError, Encoder().process_numeric_compressed,
+              CoderState(True, 2, [[None], [None]]), get_bit_writer(), D, 256, 1.0, 0)
 # ... and a failing call has recorded the descriptor and advanced the index before it failed
 st = CoderState(True, 2, [['a'], [1]])
 expect_raises('str * float', TypeError, Encoder().process_numeric_compressed, st, get_bit_writer(), D, 12, 10.0, 0)
